@@ -139,7 +139,8 @@ func init() {
 		l3Unit("maps-enums-formats", l3Enums, "C04.", "required/optional typed maps, enums, untyped and format-typed properties"),
 		l3Unit("nested-objects", l3Objects, "C04.", "required members of a nested object (which is itself required or optional)"))
 	reg(&Property{ID: "C01", Units: append(l3All("C01."),
-		l3Unit("min-sized-ints", map[string]int{"KINDS": 4, "DEPTH": 0, "MINSIZED": 1}, "C01.", "integer properties with --min-sized-ints on and off: every bound literal fits the sized type that was chosen")),
+		l3Unit("min-sized-ints", map[string]int{"KINDS": 4, "DEPTH": 0, "MINSIZED": 1}, "C01.", "integer properties with --min-sized-ints on and off: every bound literal fits the sized type that was chosen"),
+		l3Unit("defaults", map[string]int{"KINDS": 15, "DEPTH": 0, "DEFAULTS": 1, "NUMSHAPES": 3, "STRSHAPES": 3, "NONULL": 1}, "C01.", "properties with a default together with value constraints (default + validator interplay in the emitted method)")),
 		Assumptions: []string{"go/types with the real dependency packages decides type-correctness; gofmt stability is checked on the text with hole identifiers (holes never sit in aligned columns)"}})
 	reg(&Property{ID: "C02", Units: l3All("C02.")})
 	reg(&Property{ID: "C03", Units: l3All("C03.")})
@@ -193,6 +194,13 @@ func init() {
 			Desc:   "legal but unusual inputs (a property that is {\"$ref\": \"#\"}, an object default with an empty key, an empty property name): no panic",
 			Bounds: "three concrete shapes",
 			Panic:  "violation"},
+	}})
+	reg(&Property{ID: "C16", Units: []Unit{
+		{Name: "one-option-apart", Harness: "pkg/generator:HarnessC16", Layer: "L3",
+			Desc:   "one symbolic schema (shape grammar plus anyOf/allOf of $ref'd definitions) generated twice under configurations differing in exactly one option; the emitted files are compared at declaration level (hole identifiers by their terms): --only-models = same type declarations and no functions/variables; --tags = equal after erasing struct tags; without --extra-imports = the full output minus YAML methods/imports with identical JSON methods",
+			Bounds: "options --only-models, --tags (json only), --extra-imports; shapes G(1,1); --capitalization / --struct-name-from-title / --schema-root-type (identifier renaming) and main.go's flag wiring are not covered; the comparison is a concrete per-path oracle on the symbolic output (the solver contributes the path partition)",
+			Quick:  map[string]int{"GRID": 2, "GRIDMAG": 36, "NUMSHAPES": 3, "STRSHAPES": 3, "ARRSHAPES": 3},
+			Panic:  "inconclusive"},
 	}})
 	reg(&Property{ID: "C12", Units: []Unit{
 		{Name: "map-order-schedules", Harness: "pkg/generator:HarnessC12", Layer: "L3", MapOrd: 5, SameEmits: true,
